@@ -214,6 +214,31 @@ class Facts:
             return None
         raise AnchorLost("anchor %r matches %d items %s" % (suffix, len(c), c[:5]))
 
+    def find_impl(self, self_ty, trait, method, required=True, trait_args=None):
+        """Method `method` of `impl trait for self_ty` (trait None = inherent impl); self_ty is
+        matched as a suffix of the impl's self type (lifetimes ignored)."""
+        c = []
+        for p, it in self.items.items():
+            if it["kind"] != "AssocFn" or not p.endswith("::" + method):
+                continue
+            st = re.sub(r"<'[a-z_]+>", "", it.get("self_ty", ""))
+            if not (st == self_ty or st.endswith("::" + self_ty)):
+                continue
+            if (it.get("trait") or None) != trait:
+                continue
+            if trait_args is not None:
+                # trait_ref looks like `<Self as Trait<Args>>`; '' means no generic arguments
+                m = re.search(r" as [A-Za-z0-9_:]+(<.*>)?>$", it.get("trait_ref", ""))
+                got = (m.group(1) or "") if m else ""
+                if got != trait_args:
+                    continue
+            c.append(p)
+        if len(c) == 1:
+            return c[0]
+        if not c and not required:
+            return None
+        raise AnchorLost("impl anchor %s for %s :: %s matches %d items" % (trait, self_ty, method, len(c)))
+
     def find_all(self, regex, kinds=("Fn", "AssocFn")):
         rx = re.compile(regex)
         return sorted(
